@@ -245,3 +245,12 @@ Qed.
 
 Lemma drop_z_app {A} (a b : list A) : drop_z (a ++ b) (zlen a) = b.
 Proof. rewrite drop_z_zdrop by apply zlen_nonneg. apply zdrop_app_exact. Qed.
+
+Lemma NoDup_app_single {A} (l : list A) x : NoDup l -> ~ In x l -> NoDup (l ++ [x]).
+Proof.
+  induction l as [|y l IH]; intros Hnd Hx; cbn [app].
+  - constructor; [intros []|constructor].
+  - inversion Hnd as [|? ? Hy Hl]. subst. constructor.
+    + intros Hin. apply in_app_or in Hin. destruct Hin as [Hin|[<-|[]]]; [contradiction|]. apply Hx. now left.
+    + apply IH; [exact Hl|]. intros Hin. apply Hx. now right.
+Qed.
